@@ -17,6 +17,7 @@ func corporaFor(prop, tier string) []*Case {
 	add := func(l []*Case) { cs = append(cs, l...) }
 	switch prop {
 	case "C01":
+		add(CorpusRandom(seed, tier))
 		add(CorpusCross(seed, tier))
 		add(CorpusTypes(seed, tier))
 		add(CorpusImports(seed, tier))
@@ -26,6 +27,7 @@ func corporaFor(prop, tier string) []*Case {
 		add(CorpusMulti(seed, tier))
 		add(CorpusRaw(seed, tier))
 	case "C02":
+		add(CorpusRandom(seed, tier))
 		add(CorpusRaw(seed, tier))
 		add(CorpusTypes(seed, tier))
 		add(CorpusGenerics(seed, tier))
@@ -37,23 +39,28 @@ func corporaFor(prop, tier string) []*Case {
 		add(CorpusGenerics(seed, tier))
 		add(CorpusFlags(seed, tier))
 	case "C10":
+		add(CorpusRandom(seed, tier))
 		add(CorpusRaw(seed, tier))
 		add(CorpusTypes(seed, tier))
 		add(CorpusGenerics(seed, tier))
 		add(CorpusFlags(seed, tier))
 	case "C11":
+		add(CorpusRandom(seed, tier))
 		add(CorpusRaw(seed, tier))
 		add(CorpusImports(seed, tier))
 		add(CorpusTypes(seed, tier))
 		add(CorpusFlags(seed, tier))
 	case "C12":
+		add(CorpusRandom(seed, tier))
 		add(CorpusCross(seed, tier))
 		add(CorpusNames(seed, tier))
 		add(CorpusTypes(seed, tier))
 	case "C13":
+		add(CorpusRandom(seed, tier))
 		add(CorpusC13(seed, tier))
 		add(CorpusCross(seed, tier))
 	case "C14":
+		add(CorpusRandom(seed, tier))
 		add(CorpusImports(seed, tier))
 		add(CorpusMulti(seed, tier))
 		add(CorpusTypes(seed, tier))
@@ -158,19 +165,22 @@ func EvaluateCases(prop, tag string, cases []*Case, sc *core.Scratch, ev *core.E
 	if err != nil {
 		return 0, 0, err
 	}
-	if prop == "C13" {
+	{
 		var keep []*Case
+		dropped := 0
 		for _, c := range cases {
 			p := preds[c.ID]
 			if c.DropKF && p != nil && (p.Crash || p.NameDup || p.FieldDup || p.Dup || p.Diverge || p.LateCapture) {
+				dropped++
 				continue
 			}
-			if c.AutoNames && p != nil {
+			if prop == "C13" && c.AutoNames && p != nil {
 				autoNames(c, p)
 			}
 			keep = append(keep, c)
 		}
 		cases = keep
+		ev.Set("dropped_by_model_predicted_finding_shape_"+tag, dropped)
 	}
 	fails, err := JudgeCases(sc, ev, tag, cases)
 	if err != nil {
